@@ -287,6 +287,15 @@ def substitute_attrs(e, sub):
     return S().visit(ast.parse(ast.unparse(e), mode="eval").body)
 
 
+def _ancestors(model, node):
+    out = []
+    p_ = model.up(node)
+    while p_ is not None and not isinstance(p_, ast.FunctionDef):
+        out.append(p_)
+        p_ = model.up(p_)
+    return out
+
+
 def lockstep_list(fc, list_src, cursor):
     """In fc.fn the list `list_src` (Name or self.attr) is [cursor0] followed by one append per cursor move,
     each appended element being the new cursor, which is a child of the previous one.
@@ -297,9 +306,19 @@ def lockstep_list(fc, list_src, cursor):
     init_node = inits[0][0]
     first = norm_src(inits[0][1][1].elts[0])
     if first != cursor:
-        return False, "%s starts with %s, not with the cursor %s" % (list_src, first, cursor)
+        # ... or with the very expression the cursor is initialised with, when that expression always designates the same
+        # object (the partition's root): [root] and cursor = root written separately
+        first_is_start = first in ("self.partition.get_root()", "self.partition.root")
+        # the cursor's only definition outside the stepping loop must be that expression
+        outside = [(n, r) for n, r in fc.defs_of(cursor) if not (r[0] == "assign" and CS._is_child_step(r[1], cursor)) and
+                   not any(isinstance(p_, (ast.For, ast.While)) for p_ in _ancestors(fc.model, n.ast))]
+        if not (first_is_start and len(outside) == 1 and outside[0][1][0] == "assign" and norm_src(outside[0][1][1]) == first):
+            return False, "%s starts with %s, not with the cursor %s" % (list_src, first, cursor)
     muts = [n for n in fc.cfg.nodes if (list_src + "[]") in E.stored_locs(n) and n is not init_node]
     moves = [(n, r) for n, r in fc.defs_of(cursor) if fc.cfg.paths_avoiding(init_node, n, ())]
+    if first != cursor:
+        # the cursor's own initialisation (the same root expression, written next to the list's) is not a move
+        moves = [(n, r) for n, r in moves if not (r[0] == "assign" and norm_src(r[1]) == first)]
     if len(muts) != len(moves):
         return False, "%s is extended %d time(s) but the cursor moves %d time(s)" % (list_src, len(muts), len(moves))
     for n, r in moves:
